@@ -45,6 +45,16 @@ from native.refinterp import (
 FLAGS = list(itertools.product([False, True], repeat=2))  # (fold, optimize)
 RTOL, ATOL = 1e-7, 1e-9
 VERBOSE = "-v" in sys.argv
+SEED, SCALE = 0, 1  # set by native.bounded: VERIF_SEED shifts every generator seed, the thorough tier scales the counts
+
+
+def _s(base):
+    return base + 1000 * SEED
+
+
+def _n(count):
+    return count * SCALE
+
 
 
 # Signatures of failures that were investigated and attributed to cirkit itself (minimal
@@ -130,10 +140,10 @@ def prepared_store(ctx, scs, semiring, seed):
 
 
 def section_a(rep):
-    items = gen.gen_circuits(11, 98, input_kinds=gen.INPUT_KINDS + ("mixed",))
-    items += gen.gen_circuits(12, 12, input_kinds=gen.COMPLEX_KINDS, complex_params=True)
+    items = gen.gen_circuits(_s(11), _n(98), input_kinds=gen.INPUT_KINDS + ("mixed",))
+    items += gen.gen_circuits(_s(12), _n(12), input_kinds=gen.COMPLEX_KINDS, complex_params=True)
     for it in items:
-        sc, kind, cplx = it["circuit"], it["kind"], it["desc"]["seed"] == 12
+        sc, kind, cplx = it["circuit"], it["kind"], it["desc"]["seed"] == _s(12)
         vkinds = {l["type"] for l in it["desc"]["layers"]}
         semirings = ["complex-lse-sum"] if cplx else ["sum-product", "lse-sum"]
         if not cplx and vkinds.isdisjoint({"CategoricalLayer", "BinomialLayer", "GaussianLayer"}):
@@ -269,7 +279,7 @@ def section_b(rep):
 
 def section_c(rep):
     kinds = ("categorical", "categorical-logits", "gaussian", "embedding", "mixed")
-    items = gen.gen_circuits(21, 60, input_kinds=kinds)
+    items = gen.gen_circuits(_s(21), _n(60), input_kinds=kinds)
     for n, it in enumerate(items):
         sc = it["circuit"]
         rng = np.random.default_rng(n)
@@ -306,12 +316,12 @@ def kron_reference(y1, y2):
 
 
 def section_d(rep):
-    pairs = [(c1, c2, d) for c1, c2, d in gen.structured_pairs(31, 80)
-             if len(c1.layers) * len(c2.layers) <= 300][:50]
+    pairs = [(c1, c2, d) for c1, c2, d in gen.structured_pairs(_s(31), _n(80))
+             if len(c1.layers) * len(c2.layers) <= 300][:_n(50)]
     # squares of structured-decomposable generated circuits
-    for it in gen.gen_circuits(32, 60, input_kinds=gen.MULTIPLY_KINDS):
+    for it in gen.gen_circuits(_s(32), _n(60), input_kinds=gen.MULTIPLY_KINDS):
         sc = it["circuit"]
-        if sc.is_structured_decomposable and len(sc.layers) <= 14 and len(pairs) < 80:
+        if sc.is_structured_decomposable and len(sc.layers) <= 14 and len(pairs) < _n(80):
             pairs.append((sc, sc, dict(it["desc"], square=True)))
     stats = {"sum-arity>1 both": 0, "kronecker": 0, "hadamard": 0}
     for n, (c1, c2, desc) in enumerate(pairs):
@@ -372,7 +382,7 @@ def derivative_reference(sc, x, store, order):
 
 
 def section_e(rep):
-    items = gen.gen_circuits(41, 24, input_kinds=("polynomial",), max_units=2)
+    items = gen.gen_circuits(_s(41), _n(24), input_kinds=("polynomial",), max_units=2)
     for n, it in enumerate(items):
         sc = it["circuit"]
         for order in (1, 2):
@@ -398,10 +408,10 @@ def section_e(rep):
 
 
 def section_f(rep):
-    items = gen.gen_circuits(51, 20, input_kinds=gen.COMPLEX_KINDS, complex_params=True)
-    items += gen.gen_circuits(52, 6, input_kinds=("categorical", "gaussian", "categorical-logits"))
+    items = gen.gen_circuits(_s(51), _n(20), input_kinds=gen.COMPLEX_KINDS, complex_params=True)
+    items += gen.gen_circuits(_s(52), _n(6), input_kinds=("categorical", "gaussian", "categorical-logits"))
     for n, it in enumerate(items):
-        sc, cplx = it["circuit"], it["desc"]["seed"] == 51
+        sc, cplx = it["circuit"], it["desc"]["seed"] == _s(51)
         semiring = "complex-lse-sum" if cplx else "sum-product"
         fold, opt = FLAGS[n % 4]
         what = tag(it["desc"], semiring=semiring, fold=fold, optimize=opt)
@@ -425,7 +435,7 @@ def section_f(rep):
 
 
 def section_g(rep):
-    items = gen.gen_circuits(61, 49, input_kinds=gen.INPUT_KINDS + ("mixed",))
+    items = gen.gen_circuits(_s(61), _n(49), input_kinds=gen.INPUT_KINDS + ("mixed",))
     for n, it in enumerate(items):
         sc = it["circuit"]
         rng = np.random.default_rng(100 + n)
